@@ -775,6 +775,19 @@ func (a *Analysis) defFacts(instr ssa.Instruction) []Aff {
 			return []Aff{r, a.I(args[0]).Sub(r)}
 		}
 	case *ssa.Extract:
+		if call, ok := c.Tuple.(*ssa.Call); ok {
+			switch ssax.CalleeName(&call.Call) {
+			case "bytes.Cut", "strings.Cut":
+				// before and after are parts of the argument
+				if c.Index == 0 || c.Index == 1 {
+					return []Aff{a.L(call.Call.Args[0]).Sub(a.L(c))}
+				}
+			case "bytes.CutPrefix", "strings.CutPrefix", "bytes.CutSuffix", "strings.CutSuffix":
+				if c.Index == 0 {
+					return []Aff{a.L(call.Call.Args[0]).Sub(a.L(c))}
+				}
+			}
+		}
 		if call, ok := c.Tuple.(*ssa.Call); ok && c.Index == 0 {
 			switch ssax.CalleeName(&call.Call) {
 			case "io.ReadFull", "(*os.File).Read", "(io.Reader).Read", "(*bufio.Reader).Read":
